@@ -9,3 +9,46 @@ package logging
 //@   ensures result != nil
 //@ func WithContext
 //@   ensures result != nil
+
+// ---------------------------------------------------------------------------------------------------
+// Request-ID / trace-ID propagation (C16). reqH / respH: abstract header maps of the request and of the
+// response writer (canonical key -> value).
+//@ pred reqH(r *http.Request, k string) string := r.Header.vals[k]
+//@ pred respH(w http.ResponseWriter, k string) string := gfield(hdrmap(ptr(w)), http.Header.vals)[k]
+
+// stated, not verified (fmt.Sprintf / crypto/rand are not modelled): generated identifiers are never empty
+//@ func generateIdentifier
+//@   ensures result != "" && trim_space(result) == result
+
+//@ func handleRequestID
+//@   props C16
+//@   requires r != nil && r.Header != nil && w != nil && hdrmap(ptr(w)) != ptr(r.Header) && hdrmap(ptr(w)) != 0
+//@   ensures disabled_touches_nothing: !cfg.RequestID.Enabled ==> result == "" && reqH(r, header) == old(reqH(r, header)) && respH(w, header) == old(respH(w, header))
+//@   ensures response_carries_id: cfg.RequestID.Enabled ==> respH(w, header) != "" && respH(w, header) == result
+//@   ensures backend_sees_what_client_gets: cfg.RequestID.Enabled ==> reqH(r, header) == respH(w, header)
+//@   ensures client_id_kept: cfg.RequestID.Enabled && trim_space(old(reqH(r, header))) != "" ==> respH(w, header) == trim_space(old(reqH(r, header)))
+//@   ensures clean_client_id_untouched: cfg.RequestID.Enabled && trim_space(old(reqH(r, header))) != "" && trim_space(old(reqH(r, header))) == old(reqH(r, header))
+//@             ==> reqH(r, header) == old(reqH(r, header))
+//@   ensures other_headers_kept: forall k string :: {r.Header.vals[k]} k != header ==> reqH(r, k) == old(reqH(r, k)) && respH(w, k) == old(respH(w, k))
+//@   modifies http.Header.vals
+
+//@ func handleTraceID
+//@   props C16
+//@   requires r != nil && r.Header != nil && w != nil && hdrmap(ptr(w)) != ptr(r.Header) && hdrmap(ptr(w)) != 0
+//@   ensures disabled_touches_nothing: !cfg.Trace.Enabled ==> result == "" && reqH(r, header) == old(reqH(r, header)) && respH(w, header) == old(respH(w, header))
+//@   ensures response_carries_id: cfg.Trace.Enabled ==> respH(w, header) != "" && respH(w, header) == result
+//@   ensures backend_sees_what_client_gets: cfg.Trace.Enabled ==> reqH(r, header) == respH(w, header)
+//@   ensures client_id_kept: cfg.Trace.Enabled && trim_space(old(reqH(r, header))) != "" ==> respH(w, header) == trim_space(old(reqH(r, header)))
+//@   ensures clean_client_id_untouched: cfg.Trace.Enabled && trim_space(old(reqH(r, header))) != "" && trim_space(old(reqH(r, header))) == old(reqH(r, header))
+//@             ==> reqH(r, header) == old(reqH(r, header))
+//@   ensures other_headers_kept: forall k string :: {r.Header.vals[k]} k != header ==> reqH(r, k) == old(reqH(r, k)) && respH(w, k) == old(respH(w, k))
+//@   modifies http.Header.vals
+
+//@ func RequestHeaderName
+//@   props C16
+//@   ensures default_name: trim_space(cfg.RequestID.Header) == "" ==> result == "X-Request-ID"
+//@   ensures custom_name: trim_space(cfg.RequestID.Header) != "" ==> result == trim_space(cfg.RequestID.Header)
+//@ func TraceHeaderName
+//@   props C16
+//@   ensures default_name: trim_space(cfg.Trace.Header) == "" ==> result == "X-Trace-ID"
+//@   ensures custom_name: trim_space(cfg.Trace.Header) != "" ==> result == trim_space(cfg.Trace.Header)
